@@ -289,11 +289,18 @@ def main():
         path = os.path.join(OUT, mod + '.v')
         if not (os.path.exists(path) and open(path).read() == text):
             open(path, 'w').write(text)
+    # function bodies (tools/py2v_fn.py, specs in tools/fnspecs/*.py)
+    sys.path.insert(0, HERE)
+    import py2v_fn
+    py2v_fn.REPO = REPO
+    nfm, nfn, ferrors = py2v_fn.translate_all()
+    errors += ferrors
     if errors:
         for e in errors:
             print('TRANSLATOR REFUSES: ' + e)
         sys.exit(1)
-    print('translator: %d modules, %d definitions' % (len(mods), sum(len(v) for v in mods.values())))
+    print('translator: %d modules, %d definitions; %d function modules, %d function bodies' % (
+        len(mods), sum(len(v) for v in mods.values()), nfm, nfn))
 
 
 if __name__ == '__main__':
